@@ -26,9 +26,8 @@ func runC12(c *Ctx) {
 	newInst := P.Func("core/engine", "", "newInstance")
 	runNew := P.Func("core/engine", "", "runNewInstance")
 	awaitRun := P.Func("core/engine", "runAwaitHandle", "awaitRun")
-	checkAll := P.Func("core/engine", "runAwaitHandle", "checkAllInstancesAreFinished")
 	instRun := P.Func("core/engine", "instance", "Run")
-	for n, f := range map[string]*ssa.Function{"startInstances": si, "runAsync": runAsync, "newInstance": newInst, "runNewInstance": runNew, "awaitRun": awaitRun, "checkAllInstancesAreFinished": checkAll, "instance.Run": instRun} {
+	for n, f := range map[string]*ssa.Function{"startInstances": si, "runAsync": runAsync, "newInstance": newInst, "runNewInstance": runNew, "awaitRun": awaitRun, "instance.Run": instRun} {
 		if f == nil {
 			c.Anchor("O12.1", "core/engine."+n)
 			return
@@ -205,6 +204,23 @@ func runC12(c *Ctx) {
 		sp := P.SSAPkg("core/engine")
 		sentinel := outOfAmmoGlobal(c)
 		nStart, nRun := 0, 0
+		af := findAllFinished(c, "O12.4")
+		// the functions given to NewCallbackOnFinishSchedule as the finish callback
+		finishCallbacks := map[*ssa.Function]bool{}
+		for _, g := range PkgFuncs(sp) {
+			EachInstr(g, func(in ssa.Instruction) {
+				if cl, isCall := in.(*ssa.Call); isCall && MatchCC(&cl.Call, Spec{"./core/coreutil", "", "NewCallbackOnFinishSchedule"}) {
+					for _, f := range P.FuncValues(cl.Call.Args[1]) {
+						finishCallbacks[f] = true
+					}
+				}
+			})
+		}
+		// awaitRun and the helpers it calls
+		awaitReach := map[*ssa.Function]bool{}
+		for _, f := range FindFuncs(awaitRun, 3, func(*ssa.Function) bool { return true }) {
+			awaitReach[f] = true
+		}
 		for _, g := range PkgFuncs(sp) {
 			if !IsProdFile(P.File(g.Pos())) {
 				continue
@@ -221,35 +237,33 @@ func runC12(c *Ctx) {
 				isRunCancel := IsFieldCall(cc, "", "runCancel") || DerivesAny(cc.Value, false, IsResultOf(runWC, 1))
 				if isStartCancel {
 					nStart++
-					switch {
-					case g == awaitRun:
-						ok := false
-						if sentinel != nil {
-							for _, f := range CmpFactsAt(in) {
-								if f.Op == token.EQL && (IsGlobalLoad(sentinel)(f.X) || IsGlobalLoad(sentinel)(f.Y)) {
-									ok = true
-								}
+					// (a) on the out-of-ammo result (the comparison may sit in this function or at its only call site)
+					okAmmo := false
+					if sentinel != nil {
+						for _, f := range CmpFactsAt(in) {
+							if f.Op == token.EQL && (IsGlobalLoad(sentinel)(f.X) || IsGlobalLoad(sentinel)(f.Y)) {
+								okAmmo = true
 							}
 						}
-						c.Check(ok, "O12.3", fk(g)+":start-cancelled-on-out-of-ammo-only", in.Pos(), "in awaitRun the start context may be cancelled only on the out-of-ammo result")
+					}
+					// (b) in the finish callback of the shared RPS schedule (a closure, a method value, or a function only it calls)
+					okCb := false
+					for at, d := ssa.Instruction(in), 0; at != nil && d < 4 && !okCb; d++ {
+						okCb = finishCallbacks[at.Parent()]
+						at = SoleCallSite(at.Parent())
+					}
+					switch {
+					case okCb:
+						c.OK("O12.3", fk(g)+":start-cancel-caller", in.Pos(), "cancelled by the shared RPS schedule's finish callback")
+					case awaitReach[g]:
+						c.Check(okAmmo, "O12.3", fk(g)+":start-cancelled-on-out-of-ammo-only", in.Pos(), "in the await loop the start context may be cancelled only on the out-of-ammo result")
 					default:
-						// must be the closure given to NewCallbackOnFinishSchedule
-						ok := false
-						if par := g.Parent(); par != nil {
-							EachInstr(par, func(i2 ssa.Instruction) {
-								if cl, isCall := i2.(*ssa.Call); isCall && MatchCC(&cl.Call, Spec{"./core/coreutil", "", "NewCallbackOnFinishSchedule"}) {
-									if mc, isMC := Strip(cl.Call.Args[1]).(*ssa.MakeClosure); isMC && mc.Fn == g {
-										ok = true
-									}
-								}
-							})
-						}
-						c.Check(ok, "O12.3", fk(g)+":start-cancel-caller", in.Pos(), "the start context may only be cancelled by awaitRun (out of ammo) or by the shared RPS schedule's finish callback")
+						c.Bad("O12.3", fk(g)+":start-cancel-caller", in.Pos(), "the start context may only be cancelled by the await loop (out of ammo) or by the shared RPS schedule's finish callback")
 					}
 				}
 				if isRunCancel {
 					nRun++
-					c.Check(g == checkAll, "O12.4", fk(g)+":run-cancel-caller", in.Pos(), "the run context may only be cancelled by checkAllInstancesAreFinished; in particular not by the startup profile ending")
+					c.Check(af != nil && af.after(in), "O12.4", fk(g)+":run-cancel-caller", in.Pos(), "the run context may only be cancelled after close(runRes) in the all-instances-finished action; in particular not by the startup profile ending")
 				}
 			})
 		}
